@@ -1168,6 +1168,25 @@ class Share(Base):
             self.bad('open-refused:file-not-open-anywhere:mode-%s' % mode, '%r gave error %d; no file number has %s '
                      'open (every earlier holder was closed)' % (stmt, r.err, name))
 
+    def op_sysopen(self, op):
+        """Statements that open a file without a file number: SAVE, SAVE ,A, LIST ,"file", BSAVE."""
+        name, kind = op['name'], op['kind']
+        stmt = {
+            'save': b'SAVE "%s"', 'savea': b'SAVE "%s",A', 'list': b'LIST ,"%s"', 'bsave': b'BSAVE "%s",0,16',
+        }[kind] % b(name)
+        exclusive = [k for k in self.holders(name) if self.h[k]['mode'] in 'OA']
+        r = self.cx.x(stmt, kind.upper())
+        self.note('sysopen-' + kind, bool(exclusive), r.err)
+        if exclusive:
+            self.run.probe('unnumbered-open-while-open-for-output')
+            if r.err is None:
+                k = exclusive[0]
+                self.bad('unnumbered-open-accepted:held-for-%s:%s' % (
+                    {'O': 'OUTPUT', 'A': 'APPEND'}[self.h[k]['mode']], kind),
+                    '%r succeeded although #%d has %s open for %s' % (stmt, k, name, MODEWORD[self.h[k]['mode']].decode()))
+        elif r.err is None:
+            self.exists.add(name)
+
     def op_close(self, op):
         n = op['n']
         r = self.cx.x(b'CLOSE #%d' % n, 'CLOSE')
@@ -1264,10 +1283,23 @@ class Share(Base):
         h = self.h.get(n)
         if h is None or h['mode'] != 'R':
             return
-        if not 1 <= rec <= 2 ** 24:
-            return
-        stmt = b'%s #%d,%d' % (word, n, rec)
+        if rec is None:
+            # no record number: the record after the last one accessed through this file number.
+            # Only judged while the model knows that position (after a successful access).
+            stmt = b'%s #%d' % (word, n)
+            rec = h.get('next_rec')
+            if rec is None or not 1 <= rec <= 2 ** 24:
+                r = self.cx.x(stmt, word.decode())
+                h['next_rec'] = None
+                return
+            self.run.probe('implicit-record-access-judged')
+        else:
+            if not 1 <= rec <= 2 ** 24:
+                return
+            stmt = b'%s #%d,%d' % (word, n, rec)
         r = self.cx.x(stmt, word.decode())
+        # where the next access without a record number goes; unknown after a refused access
+        h['next_rec'] = rec + 1 if r.err is None else None
         # (a lock holder open for OUTPUT/APPEND beside a RANDOM number can only exist after a
         # second-open-accepted violation has been reported; that state is not judged further)
         blockers = [l for l in self.locks if l[0] != n and self.h[l[0]]['name'] == h['name']
@@ -1561,6 +1593,9 @@ def gen26(rng, tier):
             if n not in opened and n <= maxf:
                 opened[n] = (name, mode)
             continue
+        if rng.random() < 0.04:
+            ops.append({'op': 'sysopen', 'kind': rng.choice(['save', 'savea', 'list', 'bsave']), 'name': rng.choice(names)})
+            continue
         n = rng.choice(nums)
         if rng.random() < 0.03:
             n = rng.randint(1, maxf + 1)
@@ -1629,7 +1664,12 @@ def gen26(rng, tier):
             word = 'get' if rng.random() < 0.55 else 'put'
             if word == 'put' and rec > 60:
                 word = 'get'
-            ops.append({'op': word, 'n': n, 'rec': rec})
+            if rng.random() < 0.3 and rec > 1:
+                # approach the record sequentially: an explicit access just before it, then one without number
+                ops.append({'op': 'get', 'n': n, 'rec': rec - 1})
+                ops.append({'op': word, 'n': n, 'rec': None})
+            else:
+                ops.append({'op': word, 'n': n, 'rec': rec})
     return cfg, ops
 
 
